@@ -173,6 +173,11 @@ class Built:
             probe_q = an(entity(pz, pz.a == pz.a))
         big = self.cls_preds['is_big']
         raw_big = RAW_FNS['is_big']
+        with symbolic_mode():
+            pz2 = let(cls0, list(members), name='probe2')
+            probe_q2 = an(entity(pz2, big(pz2)))           # a Predicate subclass as its condition: mode-sensitive
+        want2 = [m for m in members if raw_big(m)]
+        blocks = [symbolic_mode, rule_mode]
         busy = []
 
         def probe():
@@ -188,6 +193,14 @@ class Built:
                     raise ModeLeak('constructing a Predicate subclass in a predicate body gave a ' + type(p).__name__)
                 if bool(p()) != bool(raw_big(members[0])):
                     raise ModeLeak('calling a Predicate subclass instance in a predicate body gave a wrong value')
+                # ... and an evaluate() called INSIDE a block that the predicate body itself opens (query mode and rule
+                # mode in turn) gives what it gives anywhere else
+                blocks.reverse()
+                with blocks[0]():
+                    rows2 = list(probe_q2.evaluate())
+                if len(rows2) != len(want2) or any(r is not m for r, m in zip(rows2, want2)):
+                    raise ModeLeak('a nested evaluate() inside a block opened by a predicate body returned %r, expected %d rows'
+                                   % ([type(r).__name__ for r in rows2], len(want2)))
             finally:
                 busy.pop()
         self.counter.probe = probe
